@@ -99,6 +99,7 @@ var vfsReplacements = map[string]string{
 	"(*os.File).Name": "vfsName", "(*os.File).Stat": "vfsFileStat", "os.Stat": "vfsStat", "os.Remove": "vfsRemove", "os.RemoveAll": "vfsRemoveAll",
 	"os.Rename": "vfsRename", "os.MkdirAll": "vfsMkdirAll", "os.ReadDir": "vfsReadDir", "os.ReadFile": "vfsReadFile", "os.WriteFile": "vfsWriteFile",
 	"os.Truncate": "vfsTruncate", "os.MkdirTemp": "vfsMkdirTemp", "path/filepath.Glob": "vfsGlob",
+	"(*os.File).ReadFrom": "vfsReadFrom", "(*os.File).WriteTo": "vfsWriteTo",
 }
 
 var defaultNoop = []string{"go.uber.org/zap", "log", "github.com/influxdata/influxdb/logger", "expvar", "runtime/debug", "runtime/pprof", "github.com/influxdata/influxdb/pkg/tracing", "github.com/opentracing/opentracing-go"}
